@@ -644,4 +644,118 @@ func groupEvents(tr *hx.Trace, r *hx.Rng, thorough bool) {
 			}
 		}
 	}
+	formulaEvents(tr, r, thorough)
+}
+
+// formulaEvents: the point formulas with their coordinates.  Operands are extended points with non-trivial Z (results of
+// earlier additions), of every kind: prime-order, mixed-order, small-order, neutral, P = Q, P = -Q.  The coordinates of the
+// operands and of the result are recorded as canonical residues; TraceNum predicts them from the transcribed formulas
+// (GroupFormulasBig) and checks that the result is the right point.
+func formulaEvents(tr *hx.Trace, r *hx.Rng, thorough bool) {
+	cfg := *fCfg
+	res := func(x *fe) []int {
+		var b [32]byte
+		curve25519.Contract(b[:], x)
+		return hx.Ints(b[:])
+	}
+	pt := func(p *ge25519.Ge25519) [][]int { return [][]int{res(p.X()), res(p.Y()), res(p.Z()), res(p.T())} }
+	nl := func(q *ge25519.VerifNiels) [][]int { return [][]int{res(&q.YsubX), res(&q.XaddY), res(&q.T2d)} }
+	pn := func(q *ge25519.VerifPniels) [][]int {
+		return [][]int{res(&q.YsubX), res(&q.XaddY), res(&q.Z), res(&q.T2d)}
+	}
+	emit := func(f string, p, q, out [][]int, sign int) {
+		if q == nil {
+			q = [][]int{}
+		}
+		tr.Emit(map[string]interface{}{"op": "formula", "f": f, "p": p, "q": q, "out": out, "sign": sign, "cfg": cfg})
+	}
+	unpack := func(k *big.Int, t int) *ge25519.Ge25519 {
+		enc := refmodel.FromKT(k, t).Encode()
+		var P ge25519.Ge25519
+		if !ge25519.UnpackVartime(&P, enc[:]) {
+			panic("unpack")
+		}
+		return &P
+	}
+	type kt struct {
+		k *big.Int
+		t int
+	}
+	var base []kt
+	base = append(base, kt{big.NewInt(0), 0}, kt{big.NewInt(0), 4}, kt{big.NewInt(0), 2}, kt{big.NewInt(0), 1}, kt{big.NewInt(1), 0}, kt{new(big.Int).Sub(refmodel.L, big.NewInt(1)), 0})
+	n := 10
+	if thorough {
+		n = 120
+	}
+	for i := 0; i < n; i++ {
+		base = append(base, kt{r.Scalar(), r.Intn(8)})
+	}
+	for i, a := range base {
+		for j := 0; j < 3; j++ {
+			b := base[r.Intn(len(base))]
+			switch j {
+			case 1:
+				b = a // P = Q
+			case 2:
+				b = kt{new(big.Int).Mod(new(big.Int).Neg(a.k), refmodel.L), (8 - a.t) % 8} // Q = -P
+			}
+			// operands with non-trivial Z: P = (A + W) - W, Q = (B + W) - W for a blinding point W
+			var P, Q ge25519.Ge25519
+			if i%4 == 0 {
+				P, Q = *unpack(a.k, a.t), *unpack(b.k, b.t) // Z = 1
+			} else {
+				w := unpack(r.Scalar(), r.Intn(8))
+				var nw ge25519.Ge25519
+				curve25519.Neg(nw.X(), w.X())
+				curve25519.Copy(nw.Y(), w.Y())
+				curve25519.Copy(nw.Z(), w.Z())
+				curve25519.Neg(nw.T(), w.T())
+				ge25519.Add(&P, unpack(a.k, a.t), w)
+				ge25519.Add(&P, &P, &nw)
+				ge25519.Add(&Q, unpack(b.k, b.t), w)
+				ge25519.Add(&Q, &Q, &nw)
+			}
+			var R ge25519.Ge25519
+			if !guard(tr, "Add", func() { ge25519.Add(&R, &P, &Q) }) {
+				emit("add", pt(&P), pt(&Q), pt(&R), 0)
+			}
+			if !guard(tr, "Double", func() { ge25519.Double(&R, &P) }) {
+				emit("double", pt(&P), nil, pt(&R), 0)
+			}
+			if !guard(tr, "doublePartial", func() { ge25519.VerifDoublePartial(&R, &P) }) {
+				emit("doublepartial", pt(&P), nil, pt(&R)[:3], 0)
+			}
+			if !guard(tr, "CofactorMultiply", func() { ge25519.CofactorMultiply(&R, &P) }) {
+				emit("cofmul", pt(&P), nil, pt(&R), 0)
+			}
+			if !guard(tr, "ProjectiveToExtended", func() { ge25519.ProjectiveToExtended(&R, &P) }) {
+				emit("proj2ext", pt(&P)[:3], nil, pt(&R), 0)
+			}
+			var qp, op ge25519.VerifPniels
+			if guard(tr, "fullToPniels", func() { ge25519.VerifFullToPniels(&qp, &Q) }) {
+				continue
+			}
+			emit("fulltopniels", pt(&Q), nil, pn(&qp), 0)
+			if !guard(tr, "pnielsAdd", func() { ge25519.VerifPnielsAdd(&op, &P, &qp) }) {
+				emit("pnielsadd", pt(&P), pn(&qp), pn(&op), 0)
+			}
+			if !guard(tr, "geSub", func() { ge25519.VerifGeSubFull(&R, &P, &qp) }) {
+				emit("gesub", pt(&P), pn(&qp), pt(&R), 0)
+			}
+			qn := ge25519.VerifNielsSlidingMultiple(r.Intn(32))
+			for sign := 0; sign < 2; sign++ {
+				sb := uint8(sign)
+				if !guard(tr, "pnielsAddP1P1Vartime", func() { ge25519.VerifMixedAddFull(&R, &P, nil, &qp, sb) }) {
+					emit("mixedpniels", pt(&P), pn(&qp), pt(&R), sign)
+				}
+				if !guard(tr, "nielsAdd2P1p1Vartime", func() { ge25519.VerifMixedAddFull(&R, &P, &qn, nil, sb) }) {
+					emit("mixedniels", pt(&P), nl(&qn), pt(&R), sign)
+				}
+			}
+			R = P
+			if !guard(tr, "nielsAdd2", func() { ge25519.VerifNielsAdd2(&R, &qn) }) {
+				emit("nielsadd2", pt(&P), nl(&qn), pt(&R), 0)
+			}
+		}
+	}
 }
